@@ -30,6 +30,7 @@ import (
 	"golang.org/x/sync/errgroup"
 
 	dherrors "github.com/dolthub/dolt/go/libraries/utils/errors"
+	"github.com/dolthub/dolt/go/libraries/utils/verifhook"
 	"github.com/dolthub/dolt/go/store/chunks"
 	"github.com/dolthub/dolt/go/store/hash"
 )
@@ -549,6 +550,7 @@ func (wr *journalWriter) commitRootHashUnlocked(ctx context.Context, behavior dh
 	if err = wr.flush(ctx, behavior); err != nil {
 		return err
 	}
+	verifhook.At("journal.beforeSync")
 	func() {
 		defer trace.StartRegion(ctx, "sync").End()
 
@@ -557,6 +559,7 @@ func (wr *journalWriter) commitRootHashUnlocked(ctx context.Context, behavior dh
 	if err != nil {
 		return dherrors.Fatalf(behavior, "%w: error syncing journal", err)
 	}
+	verifhook.At("journal.afterSync")
 
 	wr.unsyncd = 0
 	if wr.ranges.novelCount() > wr.maxNovel {
@@ -632,6 +635,7 @@ func (wr *journalWriter) flush(ctx context.Context, behavior dherrors.FatalBehav
 	}
 	wr.off += int64(len(wr.buf))
 	wr.buf = wr.buf[:0]
+	verifhook.At("journal.afterFlush")
 	return
 }
 
